@@ -1874,7 +1874,10 @@ class NetCDFWrite(IOWrite):
         array = self.implementation.get_array(
             self.implementation.get_data(bounds)
         )
-        array = np.trim_zeros(np.ma.count(array, axis=2).flatten())
+        # Remove the zero counts of all of the padding parts, not
+        # only of those at the two ends of the flattened array
+        array = np.ma.count(array, axis=2).flatten()
+        array = array[array > 0]
         array = self._int32(array)
 
         data = self.implementation.initialise_Data(array=array, copy=False)
